@@ -45,4 +45,16 @@ def lowerRep : Expr → Nat → Nat → Expr × Nat
 /-- Value of the `len`-bit slice of `e` starting at bit `st` (`Evaluator.eval(_Slice(e, st, st+len))`). -/
 def sliceVal (ρ : Env) (e : Expr) (st len : Nat) : Int := tn len (evalF ρ e / p2 st)
 
+/-- The last step of `_ComplexSliceLowerer.visit_Slice` (after the fix of C01-signed-full-slice-dropped /
+    C01-full-slice-dropped-negative-operand): the slice is dropped altogether iff it covers the resolved node
+    exactly AND that node is an unsigned `Signal`, a `Cat` or a `Replicate`
+    (`isinstance(node, (Signal, Cat, Replicate)) and not value_bits_sign(node)[1]`). -/
+def dropsSlice (e : Expr) (st len : Nat) : Bool :=
+  decide (st = 0) && decide ((bitsSign e).1 = len) &&
+    (match e with
+     | .sig _ _ s => !s
+     | .cat _ => true
+     | .rep _ _ => true
+     | _ => false)
+
 end Litex.C01
